@@ -260,6 +260,12 @@ func (r *outRun) observe() OutObs {
 	r.pump()
 	cl := r.cl.Load()
 	ob, ok := cl.VerifOutbufLenTry()
+	// the lock is held for good only by a writer parked inside a connection write; otherwise a goroutine is just passing
+	// through a critical section (e.g. the write loop's error handling on its way back to its select): look again
+	for n := 0; !ok && r.conn.inW.Load() == 0 && n < 200; n++ {
+		time.Sleep(100 * time.Microsecond)
+		ob, ok = cl.VerifOutbufLenTry()
+	}
 	if !ok {
 		ob = -1
 	}
